@@ -30,8 +30,10 @@ import (
 // step; onet's goroutines (reader, write loop, adapter, forwarders, stoppers)
 // run freely in between, except where the harness holds one at a hook.
 //
-//   c15 open <c> <fresh|garbage|failing>      connect, send the first message
-//   c15 csend <c> <fresh|reuse<j>|garbage|failing>   a further client message
+//   c15 open <c> <fresh|garbage|failing|nostop|noout>      connect, send the first message
+//   c15 csend <c> <fresh|reuse<j>|garbage|failing|nostop|noout>   a further client message
+//                             nostop: the handler hands back a new channel and a nil stop channel;
+//                             noout: it hands back a nil channel (and a stop channel, no error)
 //   c15 wstart <c> <n>        wait until the handler was invoked more than n times for <c>
 //   c15 emit <c> <k> <v>      the service sends v on channel k (until a forwarder takes it)
 //   c15 svcclose <c> <k>      the service closes channel k
@@ -48,6 +50,8 @@ import (
 //                             counted per process, so only for single-connection cases)
 //   c15 gc                    garbage collection in the server process; from then on the service tries to
 //                             allocate a new channel at the address of a closed and dropped one
+//   c15 census                goroutine census of the server process: waits until no routine of
+//                             ProcessClientStreamRequest (adapter, stop notifiers, forwarders) is left
 //   c15 alive                 a fresh connection streams one value and ends normally
 //   c15 cmute <c>             from now on the client only listens: it neither answers a close frame
 //                             nor closes its side of the connection
@@ -72,6 +76,9 @@ type C15Req struct {
 	Conn  string
 	Reuse int64
 	Fail  bool
+	// NoStop: a new channel, but no stop channel; NoOut: no channel at all (nil), with a stop channel
+	NoStop bool
+	NoOut  bool
 }
 
 // C15Val is what the service streams.
@@ -91,6 +98,8 @@ func (s *c15Service) ping(m *C15Ping) (*C15Pong, error) { return &C15Pong{V: m.V
 type c15stream struct {
 	ch   chan *C15Val
 	stop chan bool
+	// nilOut: the handler handed back a nil channel for this request
+	nilOut bool
 }
 
 type c15conn struct {
@@ -138,7 +147,15 @@ func (s *c15Service) stream(m *C15Req) (chan *C15Val, chan bool, error) {
 		st := c.streams[m.Reuse]
 		return st.ch, st.stop, nil
 	}
+	if m.NoOut {
+		st := &c15stream{stop: make(chan bool), nilOut: true}
+		c.streams = append(c.streams, st)
+		return nil, st.stop, nil
+	}
 	st := &c15stream{stop: make(chan bool)}
+	if m.NoStop {
+		st.stop = nil
+	}
 	if c15gcDone && len(c.oldAddr) > 0 {
 		for i := 0; i < 200000 && st.ch == nil; i++ {
 			ch := make(chan *C15Val)
@@ -263,6 +280,12 @@ func c15msg(conn, m string) ([]byte, bool) {
 	case m == "failing":
 		b, err := protobuf.Encode(&C15Req{Conn: string(c15tag(conn)), Reuse: -1, Fail: true})
 		return b, err == nil
+	case m == "nostop":
+		b, err := protobuf.Encode(&C15Req{Conn: string(c15tag(conn)), Reuse: -1, NoStop: true})
+		return b, err == nil
+	case m == "noout":
+		b, err := protobuf.Encode(&C15Req{Conn: string(c15tag(conn)), Reuse: -1, NoOut: true})
+		return b, err == nil
 	case m == "garbage":
 		return append([]byte{0xff, 0xff, 0xff, 0xff, 0x01}, c15tag(conn)...), true
 	case strings.HasPrefix(m, "reuse"):
@@ -282,6 +305,10 @@ func c15req(conn, m string) (*C15Req, bool) {
 		return &C15Req{Conn: string(c15tag(conn)), Reuse: -1}, true
 	case m == "failing":
 		return &C15Req{Conn: string(c15tag(conn)), Reuse: -1, Fail: true}, true
+	case m == "nostop":
+		return &C15Req{Conn: string(c15tag(conn)), Reuse: -1, NoStop: true}, true
+	case m == "noout":
+		return &C15Req{Conn: string(c15tag(conn)), Reuse: -1, NoOut: true}, true
 	case strings.HasPrefix(m, "reuse"):
 		j, err := strconv.Atoi(m[5:])
 		if err != nil {
@@ -448,8 +475,8 @@ func (e *c15env) do(tk []string) string {
 			return "bad-op"
 		}
 		st := e.svcStream(tk[2], k)
-		if st == nil {
-			return "timeout"
+		if st == nil || st.nilOut {
+			return "timeout" // (a nil channel: nothing can be emitted on it)
 		}
 		r := "ok"
 		func() {
@@ -474,8 +501,8 @@ func (e *c15env) do(tk []string) string {
 			return "bad-op"
 		}
 		st := e.svcStream(tk[2], k)
-		if st == nil {
-			return "timeout"
+		if st == nil || st.nilOut {
+			return "timeout" // (a nil channel cannot be closed)
 		}
 		r := "ok"
 		func() {
@@ -594,8 +621,8 @@ func (e *c15env) do(tk []string) string {
 			return "bad-op"
 		}
 		st := e.svcStream(tk[2], k)
-		if st == nil {
-			return "timeout"
+		if st == nil || st.stop == nil {
+			return "timeout" // (a nil stop channel is never seen closed)
 		}
 		select {
 		case <-st.stop:
@@ -674,6 +701,18 @@ func (e *c15env) do(tk []string) string {
 		}
 		c15hmu.Unlock()
 		return "ok"
+	case len(tk) == 2 && tk[1] == "census":
+		deadline := time.Now().Add(c15wait)
+		for {
+			n := c15census()
+			if n == 0 {
+				return "ok"
+			}
+			if time.Now().After(deadline) {
+				return "stuck"
+			}
+			time.Sleep(5 * time.Millisecond)
+		}
 	case len(tk) == 2 && tk[1] == "alive":
 		name := "canary"
 		for i := 0; ; i++ {
@@ -693,6 +732,28 @@ func (e *c15env) do(tk []string) string {
 		return "ok"
 	}
 	return "bad-op"
+}
+
+// c15census counts the goroutines of the process that run code of
+// ProcessClientStreamRequest: the adapter of a connection, its stop notifiers,
+// its forwarding routines.
+func c15census() int {
+	buf := make([]byte, 1<<20)
+	for {
+		n := runtime.Stack(buf, true)
+		if n < len(buf) {
+			buf = buf[:n]
+			break
+		}
+		buf = make([]byte, 2*len(buf))
+	}
+	cnt := 0
+	for _, g := range strings.Split(string(buf), "\n\n") {
+		if strings.Contains(g, ").ProcessClientStreamRequest.func") {
+			cnt++
+		}
+	}
+	return cnt
 }
 
 func c15exec(c *h.Ctx, cs *h.Case) {
@@ -759,6 +820,12 @@ func c15oracle(cs *h.Case) {
 			}
 			continue
 		}
+		if tk[1] == "census" {
+			if obs != "ok" {
+				cs.Fail("c15:goroutine-stuck", fmt.Sprintf("op %d: every stream is over and every service closed its channels, but routines of the streaming adapter are still there (%s)", i, obs))
+			}
+			continue
+		}
 		if tk[1] == "ping" && len(tk) == 3 {
 			v, _ := strconv.ParseInt(tk[2], 10, 64)
 			if obs != fmt.Sprintf("pong %d", v+1) {
@@ -773,7 +840,8 @@ func c15oracle(cs *h.Case) {
 		blockedOK := strings.HasPrefix(cs.Class, "corpus:blocked-emit") && tk[1] == "emit" && c.held
 		switch tk[1] {
 		case "open", "csend":
-			if tk[3] == "garbage" || tk[3] == "failing" {
+			if tk[3] == "garbage" || tk[3] == "failing" || tk[3] == "noout" {
+				// (a handler that hands back no channel ends the stream like a failing one)
 				c.bad = true
 			}
 		case "hold":
@@ -1106,6 +1174,99 @@ func (g *c15g) onetClient(c string, n, burst int, again bool, leave bool) []stri
 	return append(ops, "c15 svcclose "+c+" 0", "c15 cread "+c, "c15 wstop "+c+" 0")
 }
 
+// a handler that hands back no stop channel (nil) for request number `which`
+// (0: the first one, the probe's case; 1: a later request of a healthy stream;
+// 2: the first one, and a second request gets the same pair again). The stream
+// ends by the service (end "service"), by the client leaving ("close"/"drop")
+// or by a bad message ("garbage"/"failing"/"noout"); census: the case is alone
+// on the server and waits until every routine of the adapter has ended.
+func (g *c15g) nilStop(c string, n, burst, which int, end string, census bool) []string {
+	var ops []string
+	chans := 1
+	switch which {
+	case 0:
+		ops = []string{"c15 open " + c + " nostop", "c15 wstart " + c + " 0"}
+	case 1:
+		ops = []string{"c15 open " + c + " fresh", "c15 wstart " + c + " 0", "c15 csend " + c + " nostop", "c15 wstart " + c + " 1"}
+		ops = append(ops, g.values(c, 1, 1, 1)...)
+		chans = 2
+	default:
+		ops = []string{"c15 open " + c + " nostop", "c15 wstart " + c + " 0", "c15 csend " + c + " reuse0", "c15 wstart " + c + " 1"}
+	}
+	for k := 0; k < chans; k++ {
+		ops = append(ops, g.values(c, k, n, burst)...)
+	}
+	closeAll := func() {
+		for k := 0; k < chans; k++ {
+			ops = append(ops, fmt.Sprintf("c15 svcclose %s %d", c, k))
+		}
+	}
+	switch end {
+	case "service":
+		closeAll()
+		ops = append(ops, "c15 cread "+c)
+	case "close", "drop":
+		ops = append(ops, "c15 cleave "+c+" "+end)
+		closeAll()
+	default:
+		ops = append(ops, "c15 csend "+c+" "+end)
+		if end == "noout" {
+			ops = append(ops, fmt.Sprintf("c15 wstart %s %d", c, map[bool]int{true: 2, false: 1}[which != 0]),
+				fmt.Sprintf("c15 wstop %s %d", c, chans))
+		}
+		closeAll()
+		ops = append(ops, "c15 cread "+c)
+	}
+	if which == 1 {
+		ops = append(ops, "c15 wstop "+c+" 0")
+	}
+	if census {
+		ops = append(ops, "c15 census")
+	}
+	return ops
+}
+
+// a handler that hands back no channel (nil) and no error: the stream ends
+// like after a failing request, the service is told to stop at once, no
+// routine waits on the nil channel. p < 0: it is the first request; else it
+// comes after p values of a healthy stream. leave: the client leaves ("close"/
+// "drop") instead of reading the close.
+func (g *c15g) nilOut(c string, p int, leave string, more int, census bool) []string {
+	var ops []string
+	k := 0
+	if p < 0 {
+		// (no forwarder keeps the connection open: the server closes it at once, further messages could not be written)
+		more = 0
+		ops = []string{"c15 open " + c + " noout", "c15 wstart " + c + " 0", "c15 wstop " + c + " 0"}
+	} else {
+		ops = []string{"c15 open " + c + " fresh", "c15 wstart " + c + " 0"}
+		ops = append(ops, g.values(c, 0, p, 1)...)
+		ops = append(ops, "c15 csend "+c+" noout", "c15 wstart "+c+" 1", "c15 wstop "+c+" 1", "c15 wstop "+c+" 0")
+		k = 1
+	}
+	for i := 0; i < more; i++ {
+		// further client messages are drained: the stream is ending
+		ops = append(ops, "c15 csend "+c+" "+[]string{"fresh", "garbage", "noout", "nostop"}[g.c.Rng.Intn(4)])
+	}
+	// nothing can be emitted or closed on the nil channel
+	if g.c.Rng.Intn(4) == 0 {
+		ops = append(ops, fmt.Sprintf("c15 svcclose %s %d", c, k))
+	}
+	if leave != "" {
+		ops = append(ops, "c15 cleave "+c+" "+leave)
+	}
+	if p >= 0 {
+		ops = append(ops, "c15 svcclose "+c+" 0")
+	}
+	if leave == "" {
+		ops = append(ops, "c15 cread "+c)
+	}
+	if census {
+		ops = append(ops, "c15 census")
+	}
+	return ops
+}
+
 // withPings inserts plain requests of other clients of the same server at random places.
 func (g *c15g) withPings(ops []string, n int) []string {
 	for i := 0; i < n; i++ {
@@ -1189,6 +1350,13 @@ func c15genCases(c *h.Ctx, yield func(*h.Case)) {
 	emit("corpus:onet-client", g.withPings(g.onetClient("n0", 3, 2, true, false), 2))
 	emit("corpus:onet-client", g.onetClient("n0", 2, 1, false, true))
 	emit("corpus:unregistered-path", append(g.badFirst("s0", "unregistered"), "c15 ping 5"))
+	// round 5 (notes/probes/onet_c15_nil_channels_probe_test.go.txt): nil channels handed back by the handler
+	emit("corpus:nil-stop-channel", g.nilStop("s0", 1, 1, 0, "service", true))
+	emit("corpus:nil-stop-channel", g.nilStop("s0", 2, 2, 1, "drop", true))
+	emit("corpus:nil-stop-channel", g.nilStop("s0", 1, 1, 2, "garbage", true))
+	emit("corpus:nil-out-channel", g.nilOut("s0", -1, "", 0, true))
+	emit("corpus:nil-out-channel", g.nilOut("s0", -1, "close", 0, true))
+	emit("corpus:nil-out-channel", g.nilOut("s0", 2, "", 2, true))
 
 	// every stream length, every leave point (quick: lengths up to 8, thorough: up to 20)
 	maxN := c.Pick(8, 20)
@@ -1217,6 +1385,11 @@ func c15genCases(c *h.Ctx, yield func(*h.Case)) {
 			emit("flood-after-leave", g.floodAfterLeave("s0", r.Intn(3), 105+r.Intn(60), how()))
 		}
 		emit("bad-first", g.badFirst("s0", []string{"garbage", "failing", "unregistered"}[r.Intn(3)]))
+		if it%2 == 0 {
+			emit("nil-stop", g.withPings(g.nilStop("s0", r.Intn(5), 1+r.Intn(3), r.Intn(3),
+				[]string{"service", "service", "close", "drop", "garbage", "failing", "noout"}[r.Intn(7)], true), r.Intn(2)))
+			emit("nil-out", g.withPings(g.nilOut("s0", r.Intn(5)-1, []string{"", "", "close", "drop"}[r.Intn(4)], r.Intn(3), true), r.Intn(2)))
+		}
 		if it%3 == 0 {
 			emit("silent-client", g.withPings(g.silentClient("s0", r.Intn(5), 1+r.Intn(3), r.Intn(3) == 0,
 				[]string{"", "", "garbage", "failing"}[r.Intn(4)], r.Intn(3) != 0), r.Intn(2)))
@@ -1226,7 +1399,11 @@ func c15genCases(c *h.Ctx, yield func(*h.Case)) {
 		var lists [][]string
 		for i, m := 0, 2+r.Intn(3); i < m; i++ {
 			n := fmt.Sprintf("s%d", i)
-			switch r.Intn(6) {
+			switch r.Intn(8) {
+			case 6:
+				lists = append(lists, g.nilStop(n, r.Intn(4), 1+r.Intn(2), r.Intn(3), []string{"service", "close", "drop", "failing"}[r.Intn(4)], false))
+			case 7:
+				lists = append(lists, g.nilOut(n, r.Intn(4)-1, []string{"", "close", "drop"}[r.Intn(3)], r.Intn(2), false))
 			case 0:
 				lists = append(lists, g.happy(n, r.Intn(8), 1+r.Intn(3)))
 			case 1:
